@@ -18,6 +18,10 @@ UNSUPPORTED_STMTS = [
     "type T = int",
     "async def co():\n    pass",
     "from os import *",        # only valid at module level
+    # an asynchronous clause at ANY position of a generator expression (legal anywhere for CPython, an async form for the converter)
+    "q = (i for a in y async for i in a)",
+    "q = list(i async for i in y)",
+    "q = sum(i for a in y if a for b in a async for i in b)",
 ]
 IN_FUNCTION_ONLY = ["yield 1", "x = yield", "yield from it", "x = [(yield 2)]", "f(lambda: (yield))"]
 ILLEGAL = {
@@ -26,6 +30,9 @@ ILLEGAL = {
     # the same rule for the targets of comprehension clauses (every kind of comprehension, any clause, nested patterns)
     "two-stars-listcomp": "q = [0 for *a, *b in []]", "two-stars-genexp": "q = list(h for h, (*x, m, *y) in [])",
     "two-stars-dictcomp": "q = {k: 1 for row in [] for [*k, *v] in row}", "two-stars-setcomp": "print({0 for *a, *b in []})",
+    # asynchronous list / set / dict comprehensions outside a coroutine (CPython refuses to compile them), the `async` on a later clause
+    "async-listcomp": "q = [i async for i in y]", "async-listcomp-later": "q = [i for a in y async for i in a]",
+    "async-setcomp-later": "q = {i for a in y if a async for i in a}", "async-dictcomp-later": "q = {i: a for a in y async for i in a}",
 }
 
 BASES = [
